@@ -610,12 +610,19 @@ def run(chk, repo):
         except Inconclusive as ex:
             raise AnalysisError("cannot fold the kernel call of LinearFilter.__call__ for %s: %s" % (sch.label(), ex))
         ni, di = fa["num_iterables"] or [], fa["den_iterables"] or []
+        if not (isinstance(ni, list) and isinstance(di, list) and all(isinstance(k_, int) for k_ in ni + di)):
+            # the builder keeps its bookkeeping in another shape: the expected arguments follow from the coefficients
+            ni = [k_ for k_, t_ in sch.num.items() if t_.cls == "stream"]
+            di = [k_ for k_, t_ in sch.den.items() if t_.cls == "stream" and k_ != 0]
         want_args = ["iter(seq)", "memory", "zero"] + ["iter(self.numpoly[%r])" % k for k in ni] \
             + ["iter(self.denpoly[%r])" % k for k in di]
         want_names = ["seq", "memory", "zero"] + ["b%d" % k for k in ni] + ["a%d" % k for k in di]
         streams_n = [k for k, t in sch.num.items() if t.cls == "stream"]
         streams_d = [k for k, t in sch.den.items() if t.cls == "stream" and k != 0]
-        ok_ = fa["args"] == want_args and (fa["arg_names"] in (None, want_names) if not (ni or di) else fa["arg_names"] == want_names) \
+        # a coefficient handed on as the object met while the terms were built is that same coefficient
+        alt_args = ["iter(seq)", "memory", "zero"] + ["iter(<stream Bc%d>)" % k for k in ni] + ["iter(<stream Ac%d>)" % k for k in di]
+        args_ok = len(fa["args"]) == len(want_args) and all(g_ in (w_, a_) for g_, w_, a_ in zip(fa["args"], want_args, alt_args))
+        ok_ = args_ok and (fa["arg_names"] in (None, want_names) if not (ni or di) else fa["arg_names"] == want_names) \
             and sorted(ni) == sorted(streams_n) and sorted(di) == sorted(streams_d) \
             and fa["wrapper"] == "Stream" and fa["callee"] == "gen"
         chk.decide(ok_, "C04.exec", W("LinearFilter.__call__"),
